@@ -155,14 +155,19 @@ def render_graph(rng, g):
     files, texts = [], {}
     for k, f in enumerate(g):
         incs = [{"to": t, "rel": spell(rng, paths[k], paths[t - 1])} for t in f["incs"]]
-        lines = ["#d8 %d" % (16 * (k + 1))]
+        # a third of the files leave out some of their markers: adjacent #include lines, empty files
+        mute = [i for i in range(len(incs) + 1) if rng.random() < 0.5] if rng.random() < 0.33 else []
+        lines = [] if 0 in mute else ["#d8 %d" % (16 * (k + 1))]
         for i, inc in enumerate(incs):
             lines.append('#include "%s"' % inc["rel"].replace("\\", "\\\\"))
-            lines.append("#d8 %d" % (16 * (k + 1) + i + 1))
+            if (i + 1) not in mute:
+                lines.append("#d8 %d" % (16 * (k + 1) + i + 1))
         if f["once"]:
             lines.insert(rng.choice([0, 0, len(lines)]), "#once")
+        if not lines:
+            lines = [rng.choice(["", "; nothing here", ""])]
         texts[paths[k]] = "\n".join(lines) + "\n"
-        files.append({"path": chars(paths[k]), "once": f["once"],
+        files.append({"path": chars(paths[k]), "once": f["once"], "mute": mute,
                       "incs": [{"to": x["to"], "rel": chars(x["rel"])} for x in incs]})
     return files, texts, paths
 
